@@ -157,7 +157,9 @@ def main(argv=None):
             allent |= set(rp.get("entered", []))
         mech = getattr(mod, "MECHANISM", [])
         missing = [m for m in mech if m not in allent and _exists(m)]
-        if missing and not a.only:
+        any_violation = any(r.get("violations") for r in results)
+        if missing and not a.only and not any_violation:
+            # (when cases already fail before reaching a function, the violations are the message)
             broken.append(f"mechanism never entered by the probe jobs: {missing}")
     if broken:
         for b in broken[:5]:
